@@ -242,7 +242,7 @@ def run(rep: Report, rng, tier: str, known: dict, search: bool = False) -> None:
 def evidence(rep: Report) -> None:
     write_evidence(
         rep,
-        rule="cases = (expression, point, entry) from rule-directed patterns (all 46 rule left-hand sides with random holes), random type-directed trees (rational / +roots / all 15 constructors, DAG sharing, arity 0-4, depth<=4 quick / 6 thorough) and exact-power points of libm-backed constructors; non-trivial = the model says the point is in the domain and the tree has >= 3 nodes; distinct by (wire form, point, entry)",
+        rule="cases = (expression, point, entry) from rule-directed patterns (all 46 rule left-hand sides with random holes), random type-directed trees (rational / +roots / all 15 constructors, DAG sharing, arity 0-4, depth<=4 quick / 6 thorough) and exact-power points of libm-backed constructors; non-trivial = the model says the point is in the domain and the tree has >= 3 nodes; distinct by (wire form, point, entry); plus families added after seeded changes were missed: near-special arguments, compensating magnitudes, int-exact sums (ints beyond 2**53 cancelling to a small integer, decided by the exact instance), powers whose value is subnormal, a fifth of all expressions renamed (multi-character, library-internal and NFKC-unstable names), the same Point object reused after the nodes were visited elsewhere, and the two spellings of the point on chains nested 300-600 deep under the default recursion limit",
         trusted=common.TRUSTED,
         assumptions=[common.ASSUME_RANGE,
                      "rounding sentence: judged against the Float instance of the model within its running error bound (no theorem relates IEEE arithmetic to the reals)"],
